@@ -49,6 +49,10 @@ struct Rec
     int seen_next;
     int polling;
     uint64_t polling_others;
+    // call sites of the thread's recent focused operations (frozen while it is classified as polling):
+    // a focused operation from a site outside this set means the thread has left the loop
+    const void* loop_sites[32];
+    int loop_next;
     long act;             // memory-changing atomic ops (watched or not) since its last yield
     // spin equivalence: last focused op that changed nothing
     const void* spin_ra;
@@ -581,6 +585,24 @@ static inline Pre pre_op(int kind, const volatile void* a, const void* ra)
         Rec& r = R[self];
         bool spinning = r.spin_valid && r.spin_ra == ra && r.spin_addr == (const void*) a &&
             r.spin_epoch == epoch;
+        // the polling classifications below are cleared by other threads' progress - or by the thread
+        // itself leaving the loop: a focused operation from a call site that was not part of the loop
+        // (a worker that polled in its idle loop and now runs a task must get its choice points back)
+        {
+            bool known = false;
+            for (int i = 0; i < 32; ++i)
+                if (r.loop_sites[i] == ra) { known = true; break; }
+            if (r.poll_k >= 2 || r.polling)
+            {
+                if (!known)
+                {
+                    if (X && X->trace_mode) { in_rt = 1; tracef("%s left its polling loop (operation from a new site): choice points resume\n", tname(self)); in_rt = 0; }
+                    r.poll_k = 0;
+                    r.polling = 0;
+                }
+            }
+            if (!known && !(r.poll_k >= 2 || r.polling)) r.loop_sites[r.loop_next++ & 31] = ra;
+        }
         // a thread that keeps polling the clock while nobody else makes progress repeats the same
         // loop iteration: its operations open no further choice points (reduction, not extension)
         if (r.poll_k >= 2) spinning = true;
